@@ -731,7 +731,7 @@ func (c *c29Ctx) apply(h *c29Real, m *c29Model, o c29Op, path []c29Op) (bool, bo
 			c.r.Violation(sigPfx+"fields-"+s, fmt.Sprintf("%s: non-framing fields (without those announced in Trailer) before writing %v, after reading back %v (wire %q)", c.descr(path), before, after, wire), c.mkCase(path))
 			return true, true
 		}
-		// the trailer block: one line per announced name, carrying the (first) value stored under that name
+		// the trailer block: per announced name (in the announced order) one line for every value stored under that name
 		if len(m.trailer) > 0 {
 			var tb []byte
 			if h.resp {
@@ -752,8 +752,9 @@ func (c *c29Ctx) apply(h *c29Real, m *c29Model, o c29Op, path []c29Op) (bool, bo
 			}
 			var wantT, gotT []c29KV
 			for _, t := range m.trailer {
-				if c.wantBuf = m.want(t, false, c.wantBuf); len(c.wantBuf) > 0 {
-					wantT = append(wantT, c29KV{t, c29TrimOWS(c.wantBuf[0])})
+				c.wantBuf = m.want(t, false, c.wantBuf)
+				for _, v := range c.wantBuf { // every value of the name, in order: none of them is in the header block
+					wantT = append(wantT, c29KV{t, c29TrimOWS(v)})
 				}
 			}
 			for _, f := range c29NonFraming(tn.all(nil)) {
@@ -1080,12 +1081,12 @@ func TestVerif_C29(t *testing.T) {
 		"SetCookie{a,b}x{1,2}, DelCookie{a,b}, CopyTo (continue on the copy), write->read (continue on the header read back) (%d ops) from an empty header, of at most %d operations after the preamble %v, and of at most %d operations after reading each of the hand-written heads %q / %q; "+
 		"states de-duplicated on the reference model's canonical state; every transition replays the parent's path on a fresh header and checks PeekAll, Peek, All, PeekKeys against the model "+
 		"(ordered multimap per canonical name; special names single-valued; cookies accumulate; Trailer = the list of announced names, replaced by every Set/Add) and, for write->read, the non-framing field sequence before/after, "+
-		"where a field whose name is announced in Trailer is (as documented) left out of the header block and every other field must survive in place; with a Trailer announced, the trailer block (TrailerHeader) is read back with ReadTrailer and must carry, per announced name that has a value, one line with its first value; "+
+		"where a field whose name is announced in Trailer is (as documented) left out of the header block and every other field must survive in place; with a Trailer announced, the trailer block (TrailerHeader) is read back with ReadTrailer and must carry, per announced name in the announced order, every value stored under that name, in order; "+
 		"non-trivial: states with two or more values under one name or two or more cookies", depth, c29Names, c29Values, c29BreakNames, c29BreakValues, c29TrailerValues, len(ops), preDepth, preamble, rawDepth, c29RawReq, c29RawResp))
 	r.Assume("Set replaces the first value of an ordinary name and leaves further values of that name in place (literal reading of the statement; it matches the implementation)",
 		"framing fields (Content-Length, Transfer-Encoding, Connection), Date and default Content-Type values are outside the write->read comparison; after a read-back the model takes the framing fields over from the implementation",
 		"the order of fields of different names in All() is not compared with the model, only the order of the values under each name",
-		"the trailer block is compared for the first value of every announced name only (TrailerHeader writes one line per announced name); an empty line for an announced name without a stored value is left open")
+		"an empty line in the trailer block for an announced name without a stored value is left open")
 	r.Set("max_depth", depth)
 	r.Set("max_depth_after_preamble", preDepth)
 	r.Set("max_depth_after_raw_head", rawDepth)
